@@ -95,18 +95,33 @@ def main():
     if ok:
         sd = os.path.join(VERIF, "seeded", label)
         os.makedirs(sd, exist_ok=True)
+        # a re-rehearsal after strengthening (--skip-suite) keeps what the first rehearsal of the identical patch established
+        prev = {}
+        try:
+            if open(os.path.join(sd, "patch.diff")).read() == open(patch).read():
+                prev = json.load(open(os.path.join(sd, "meta.json")))
+        except (OSError, ValueError):
+            prev = {}
+        suite_ok = (not skip_suite) or bool(prev.get("confirmed", {}).get("existing_suite_passes_with_change"))
         shutil.copy(patch, os.path.join(sd, "patch.diff"))
         shutil.copy(demo, os.path.join(sd, "demo_test.go"))
         m = {"property": prop, "what": meta.get("what"), "needs": meta.get("needs"), "file_changed": meta.get("file_changed"),
              "demo_location": loc, "origin": "independent sub-agent given only the property text and a scratch worktree",
              "confirmed": {"demo_passes_on_clean_tree": True, "demo_fails_with_change": True, "builds": True,
-                           "existing_suite_passes_with_change": (not skip_suite)},
+                           "existing_suite_passes_with_change": suite_ok},
              "ran": ["go test -run Demo ./%s (clean, then patched)" % loc, "go build ./...", "go test -vet=off -count=1 ./... (patched)"] +
                     ["VERIF_REPO=<worktree with the change> ./check %s --tier quick" % c for c in checks],
              "caught_by": {c: (v["rc"] == 1) for c, v in res["checks"].items()},
              "check_output": res["checks"]}
+        if prev.get("caught_by") and skip_suite:
+            m["first_rehearsal"] = {"caught_by": prev.get("first_rehearsal", {}).get("caught_by", prev["caught_by"]),
+                                    "check_output": prev.get("first_rehearsal", {}).get("check_output", {c: {k: v[k] for k in ("rc", "wall_s") if k in v} for c, v in prev.get("check_output", {}).items()})}
+            for c, was in m["first_rehearsal"]["caught_by"].items():
+                m["caught_by"].setdefault(c, was) if was else None
         if note:
             m["history"] = note
+        elif prev.get("history"):
+            m["history"] = prev["history"]
         json.dump(m, open(os.path.join(sd, "meta.json"), "w"), indent=1, ensure_ascii=False)
     print(json.dumps(res, indent=1, ensure_ascii=False))
 
